@@ -253,6 +253,13 @@ func c13Encode(c *Ctx, r1, r2 string) {
 				}
 			}
 			if !first || !guarded {
+				// second accepted form: the very value that was tested (`size := buf.Len(); if size > limit {…}; n = size`):
+				// every use of it as the emitted length lies on the false side of that test
+				if l2, ok := testedValueLeaf(cl, em); ok {
+					lim, first, guarded = l2, true, true
+				}
+			}
+			if !first || !guarded {
 				c.fail(r1, lkey, cl.Pos(), "this buf.Len() becomes the emitted length without being taken directly on the `buf.Len() > limit` == false edge (the length may exceed the limit, or the buffer may have grown since the test)")
 				okAll = false
 				continue
@@ -311,44 +318,75 @@ func c13Encode(c *Ctx, r1, r2 string) {
 			if cc == nil || !cc.IsInvoke() || cc.Method.Name() != "WriteTo" || !strings.Contains(cc.Method.FullName(), "net.PacketConn") {
 				return
 			}
-			nW++
 			key := fnName(fn) + "/WriteTo"
-			payload := cc.Args[0]
-			if sl, ok := payload.(*ssa.Slice); ok {
-				found := false
-				for _, em := range ems {
-					if em.slice == sl {
-						found = true
+			var payloadOK func(v ssa.Value, depth int) (bool, string)
+			payloadOK = func(v ssa.Value, depth int) (bool, string) {
+				if sl, ok := v.(*ssa.Slice); ok {
+					for _, em := range ems {
+						if em.slice == sl {
+							nW++
+							return true, "a bounded buffer slice"
+						}
 					}
+					return false, "payload is a slice that is not a size-checked encode buffer"
 				}
-				c.check(found, r1, key, i.Pos(), "payload is a bounded buffer slice of this function", "payload is a slice that is not a size-checked encode buffer")
-				return
-			}
-			// result of an encoder call
-			if ex, ok := payload.(*ssa.Extract); ok && ex.Index == 0 {
-				if cl, ok := ex.Tuple.(*ssa.Call); ok {
-					if cal := cl.Call.StaticCallee(); cal != nil {
-						if lim, ok := encoders[cal]; ok {
-							// the argument bound to the limit parameter
-							idx := -1
-							for k, pp := range cal.Params {
-								if ssa.Value(pp) == lim {
-									idx = k
+				// result of an encoder call
+				if ex, ok := v.(*ssa.Extract); ok && ex.Index == 0 {
+					if cl, ok := ex.Tuple.(*ssa.Call); ok {
+						if cal := cl.Call.StaticCallee(); cal != nil {
+							if lim, ok := encoders[cal]; ok {
+								idx := -1
+								for k, pp := range cal.Params {
+									if ssa.Value(pp) == lim {
+										idx = k
+									}
 								}
+								arg := cl.Call.Args[idx]
+								if _, isField := loadedField(arg, maxF); isField {
+									nW++
+									return true, cal.Name() + "(…, l.maxPacketSize)"
+								}
+								return false, "the encoder is given a limit other than the listener's maxPacketSize: " + path(arg)
 							}
-							arg := cl.Call.Args[idx]
-							_, isField := loadedField(arg, maxF)
-							c.check(isField, r1, key, i.Pos(), "payload is "+cal.Name()+"(…, l.maxPacketSize)", "the encoder is given a limit other than the listener's maxPacketSize: "+path(arg))
-							return
 						}
 					}
 				}
+				// a parameter of an unexported sender helper: every call site must pass a bounded payload
+				if pv, ok := strip(v).(*ssa.Parameter); ok && depth < 3 {
+					pf := pv.Parent()
+					idx := -1
+					for k, pp := range pf.Params {
+						if pp == pv {
+							idx = k
+						}
+					}
+					sites := 0
+					for _, e := range p.callersOf(pf) {
+						cf := e.Caller.Func
+						if cf == nil || isTestFile(p.Fset, cf.Pos()) || e.Site == nil || !inModule(cf) {
+							continue
+						}
+						args := e.Site.Common().Args
+						if idx < 0 || idx >= len(args) {
+							return false, "a call site does not bind the payload parameter"
+						}
+						sites++
+						if ok, why := payloadOK(args[idx], depth+1); !ok {
+							return false, "called from " + fnName(cf) + ": " + why
+						}
+					}
+					if sites > 0 {
+						return true, "every call site passes a bounded payload"
+					}
+				}
+				return false, "datagram payload is not a size-checked encode buffer: " + path(v)
 			}
-			c.fail(r1, key, i.Pos(), "datagram payload is not a size-checked encode buffer: "+path(payload))
+			ok, why := payloadOK(cc.Args[0], 0)
+			c.check(ok, r1, key, i.Pos(), "payload: "+why, why)
 		})
 	}
 	if nW < 3 {
-		c.fail(r1, "WriteTo-sites", token.NoPos, fmt.Sprintf("found %d PacketConn.WriteTo call sites, expected 3", nW))
+		c.fail(r1, "WriteTo-sites", token.NoPos, fmt.Sprintf("found %d bounded datagram payloads reaching PacketConn.WriteTo, expected 3", nW))
 	}
 	if maxF != nil {
 		st := p.storesToField(maxF, false)
@@ -1033,4 +1071,57 @@ func c13Errs(c *Ctx) {
 			c.fail("C13.anchor", name, token.NoPos, "not found")
 		}
 	}
+}
+
+// testedValueLeaf: the buf.Len() value `leaf` is itself compared with the limit
+// (`leaf > limit`), and it flows into the emitted length only from blocks on the
+// false side of that comparison.
+func testedValueLeaf(leaf *ssa.Call, em emitted) (ssa.Value, bool) {
+	var iff *ssa.If
+	var limit ssa.Value
+	for _, r := range *leaf.Referrers() {
+		bo, ok := r.(*ssa.BinOp)
+		if !ok || bo.Op != token.GTR || bo.X != ssa.Value(leaf) {
+			continue
+		}
+		for _, rr := range *bo.Referrers() {
+			if i2, ok := rr.(*ssa.If); ok {
+				iff, limit = i2, bo.Y
+			}
+		}
+	}
+	if iff == nil {
+		return nil, false
+	}
+	falseSucc := iff.Block().Succs[1]
+	if falseSucc == iff.Block().Succs[0] {
+		return nil, false
+	}
+	onFalseSide := func(b *ssa.BasicBlock) bool {
+		return falseSucc.Dominates(b) && len(falseSucc.Preds) == 1
+	}
+	uses := 0
+	for _, r := range *leaf.Referrers() {
+		switch x := r.(type) {
+		case *ssa.BinOp:
+		case *ssa.Phi:
+			for k, e := range x.Edges {
+				if e == ssa.Value(leaf) {
+					uses++
+					if !onFalseSide(x.Block().Preds[k]) {
+						return nil, false
+					}
+				}
+			}
+		case *ssa.Slice:
+			uses++
+			if !onFalseSide(x.Block()) {
+				return nil, false
+			}
+		case *ssa.DebugRef:
+		default:
+			// other uses (metrics, conversions) do not affect the emitted length
+		}
+	}
+	return limit, uses > 0
 }
